@@ -253,7 +253,7 @@ export function atomNode([src, ctors, inh]) {
 export function randomTypeExpr(rng, depth, out) {
   const pickAtom = () => atomNode(rng.pick(ATOMS));
   if (depth === 0) return pickAtom();
-  const op = rng.pick(['atom', 'union', 'union', 'alias', 'paren', 'tupleIndex', 'arrayIndex', 'propIndex', 'nonNullable', 'nonNullableNullFirst', 'aliasOfUnion', 'interfaceIndex', 'interfaceMethodIndex', 'typeLitMethodIndex', 'tupleNumberIndex', 'typeLitQuotedIndex', 'quotedKeyUnionIndex', 'keyAliasIndex', 'optionalTupleNumberIndex', 'optionalTupleLiteralIndex']);
+  const op = rng.pick(['atom', 'union', 'union', 'alias', 'paren', 'tupleIndex', 'arrayIndex', 'propIndex', 'nonNullable', 'nonNullableNullFirst', 'aliasOfUnion', 'interfaceIndex', 'interfaceMethodIndex', 'typeLitMethodIndex', 'tupleNumberIndex', 'typeLitQuotedIndex', 'quotedKeyUnionIndex', 'keyAliasIndex', 'optionalTupleNumberIndex', 'optionalTupleLiteralIndex', 'genericAliasFn', 'genericAliasArray', 'genericAliasTuple', 'genericAliasIdentity', 'ctorSigInterface']);
   const decl = (t) => out.decls.push({ text: t });
   const sub = () => randomTypeExpr(rng, depth - 1, out);
   const union = (a, b) => ({ ctors: [...a.ctors, ...b.ctors.filter((c) => !a.ctors.includes(c))], inhabitants: [...a.inhabitants, ...b.inhabitants] });
@@ -280,6 +280,13 @@ export function randomTypeExpr(rng, depth, out) {
     // (keys listed in the members' declaration order: which of the two orders counts is not decided by the statement)
     case 'quotedKeyUnionIndex': { const a = sub(), b = sub(); const n = fresh('Q'); const iface = rng.bool(); decl(iface ? `interface ${n} { 'aria-label': ${a.src}; plain: ${b.src}; other: symbol }` : `type ${n} = { 'aria-label': ${a.src}; plain: ${b.src}; other: symbol };`); return { src: `${n}["aria-label" | "plain"]`, ...union(a, b), ops: ['quotedKeyUnionIndex', ...a.ops, ...b.ops] }; }
     case 'keyAliasIndex': { const a = sub(), b = sub(); const n = fresh('Q'), k = fresh('K'); decl(`type ${n} = { plain: ${a.src}; 'data-id': ${b.src}; other: symbol };`); decl(`type ${k} = 'plain' | 'data-id';`); return { src: `${n}[${k}]`, ...union(a, b), ops: ['keyAliasIndex', ...a.ops, ...b.ops] }; }
+    // generic aliases instantiated at the use site
+    case 'genericAliasFn': { const n = fresh('G'); decl(`type ${n}<T> = (p: T) => void;`); return { src: `${n}<string>`, ctors: ['Function'], inhabitants: [{ js: '((p) => {})', atom: 'generic-alias-fn' }], ops: ['genericAliasFn'] }; }
+    case 'genericAliasArray': { const a = sub(); const n = fresh('G'); decl(`type ${n}<T> = T[];`); return { src: `${n}<${a.src}>`, ctors: ['Array'], inhabitants: [{ js: '[]', atom: 'generic-alias-array' }], ops: ['genericAliasArray'] }; }
+    case 'genericAliasTuple': { const n = fresh('G'); decl(`type ${n}<A, B> = [A, B];`); return { src: `${n}<string, number>`, ctors: ['Array'], inhabitants: [{ js: '["a", 1]', atom: 'generic-alias-tuple' }], ops: ['genericAliasTuple'] }; }
+    case 'genericAliasIdentity': { const n = fresh('G'); decl(`type ${n}<T = unknown> = { value: T };`); return { src: `${n}<number>`, ctors: ['Object'], inhabitants: [{ js: '({ value: 1 })', atom: 'generic-alias-object' }], ops: ['genericAliasIdentity'] }; }
+    // construct signatures make a type a constructor
+    case 'ctorSigInterface': { const n = fresh('X'); const iface = rng.bool(); if (iface) decl(`interface ${n} { new (el: string): object }`); return { src: iface ? n : '{ new (): Date }', ctors: ['Function'], inhabitants: [{ js: 'Date', atom: 'construct-signature' }], ops: ['ctorSigInterface'] }; }
     // tuples with optional elements
     case 'optionalTupleNumberIndex': { const a = sub(), b = sub(); const viaAlias = rng.bool(); const t = `[${a.src}, (${b.src})?]`; const n = viaAlias ? fresh('R') : null; if (n) decl(`type ${n} = ${t};`); return { src: `${n ?? t}[number]`, ...union(a, b), ops: ['optionalTupleNumberIndex', ...a.ops, ...b.ops] }; }
     case 'optionalTupleLiteralIndex': { const a = sub(), b = sub(); return { ...b, src: `[${a.src}, (${b.src})?][1]`, ops: ['optionalTupleLiteralIndex', ...b.ops] }; }
@@ -300,7 +307,7 @@ export function encodeEmits(rng, names, out) {
     if (r === 1) { const k = fresh('N'); decl(`type ${k} = ${ns.map(q).join(' | ')};`); return k; }
     const k1 = fresh('N'), k2 = fresh('N'); decl(`type ${k1} = ${q(ns[0])};`); decl(`type ${k2} = ${[k1, ...ns.slice(1).map(q)].join(' | ')};`); return k2;
   };
-  const form = rng.pick(['fnType', 'unionOfFnTypes', 'callSigLiteral', 'callSigInterface', 'extendsChain', 'propertySyntax', 'aliasOfFn', 'intersection', 'exportedInterface', 'mixedDuplicates', 'extendsAlias', 'extendsAliasChain', 'extendsPropertyAlias', 'mergedCallSigInterface', 'mergedPropertyInterface']);
+  const form = rng.pick(['fnType', 'unionOfFnTypes', 'callSigLiteral', 'callSigInterface', 'extendsChain', 'propertySyntax', 'aliasOfFn', 'intersection', 'exportedInterface', 'mixedDuplicates', 'extendsAlias', 'extendsAliasChain', 'extendsPropertyAlias', 'mergedCallSigInterface', 'mergedPropertyInterface', 'methodSyntax', 'methodSyntaxInterface', 'intersectionOfFnTypes', 'intersectionWithFnTail']);
   out.ops.push(form);
   switch (form) {
     case 'fnType': return `(e: ${nameUnion(names)}, ...args: any[]) => void`;
@@ -346,6 +353,12 @@ export function encodeEmits(rng, names, out) {
     }
     case 'propertySyntax': return `{ ${names.map((x) => `${/^[A-Za-z_$][\w$]*$/.test(x) ? x : q(x)}: [v: string]`).join('; ')} }`;
     case 'intersection': { const k = Math.max(1, Math.floor(names.length / 2)); return `((e: ${nameUnion(names.slice(0, k))}) => void) & { ${names.slice(k).map((x) => `(e: ${q(x)}): void`).join('; ')} }`; }
+    // the property syntax written as method signatures (quoted names included)
+    case 'methodSyntax': return `{ ${names.map((x) => `${/^[A-Za-z_$][\w$]*$/.test(x) ? x : q(x)}(v: string): void`).join('; ')} }`;
+    case 'methodSyntaxInterface': { const n = fresh('E'); decl(`interface ${n} { ${names.map((x) => `${q(x)}(v?: number): void`).join('; ')} }`); return n; }
+    // intersections whose members are inline function types
+    case 'intersectionOfFnTypes': { const k = Math.max(1, Math.floor(names.length / 2)); const a = names.slice(0, k), b = names.slice(k); return [`((e: ${nameUnion(a)}) => void)`, ...b.map((x) => `((e: ${q(x)}, v: number) => void)`)].join(' & '); }
+    case 'intersectionWithFnTail': { const k = Math.max(1, Math.floor(names.length / 2)); const a = names.slice(0, k), b = names.slice(k); const base = fresh('E'); decl(`type ${base} = { ${a.map((x) => `(e: ${q(x)}): void`).join('; ')} };`); return b.length ? `${base} & ((e: ${nameUnion(b)}) => void)` : `${base} & {}`; }
     case 'mixedDuplicates': return `{ ${[...names, names[0]].map((x) => `(e: ${q(x)}): void`).join('; ')} }`;
     default: throw new Error(form);
   }
